@@ -53,7 +53,7 @@ Theorem C10_cleanpoint_monotone :
   forall (A : Type) (H : bytes -> bytes) (has_route : bytes -> bool)
          (on_recv : A -> packet -> option (A * option bytes))
          (on_ack : A -> packet -> bytes -> option A)
-         (ops : list op) (c : chain A) (s d : bytes),
+         (ops : list (op A)) (c : chain A) (s d : bytes),
     Forall op_wf ops ->
     clean_seq A c s d <= clean_seq A (run A H has_route on_recv on_ack c ops) s d.
 Proof. intros A H hr orc oa ops. exact (run_clean_mono A H hr orc oa ops). Qed.
@@ -65,7 +65,7 @@ Theorem C10_refused_forever :
   forall (A : Type) (H : bytes -> bytes) (has_route : bytes -> bool)
          (on_recv : A -> packet -> option (A * option bytes))
          (on_ack : A -> packet -> bytes -> option A)
-         (c : chain A) (ops : list op) (p : packet) (pf : proof) (h : N) (a : bytes),
+         (c : chain A) (ops : list (op A)) (p : packet) (pf : proof) (h : N) (a : bytes),
     Forall op_wf ops -> p_seq p <= clean_seq A c (p_src p) (p_dst p) ->
     msg_recv A H has_route on_recv (run A H has_route on_recv on_ack c ops) p pf h = None /\
     msg_ack A H has_route on_ack (run A H has_route on_recv on_ack c ops) p a pf h = None.
@@ -78,7 +78,7 @@ Theorem C10_receipt_persists_until_cleaned :
   forall (A : Type) (H : bytes -> bytes) (has_route : bytes -> bool)
          (on_recv : A -> packet -> option (A * option bytes))
          (on_ack : A -> packet -> bytes -> option A)
-         (c : chain A) (o : op) (c' : chain A) (ev : list event) (s d : bytes) (n : N),
+         (c : chain A) (o : op A) (c' : chain A) (ev : list event) (s d : bytes) (n : N),
     op_wf o -> wfk s d n -> exec A H has_route on_recv on_ack c o = Some (c', ev) ->
     receipt_at A c s d n <> None ->
     receipt_at A c' s d n <> None \/ n <= clean_seq A c' s d.
